@@ -11,7 +11,7 @@ use crate::ktypes::kseq;
 use crate::runner::{guarded, CheckResult, EnumJob, Env, Job, JobReport, Outcome, PropJob};
 use crate::util::{pack_top, rc, splitmix, to_ascii, Seq};
 
-pub const RULE: &str = "case = (k-mer type, k-mer value s, second value t, position, run length, base, packed word with garbage low bits, extension byte, longer sequence); every operation of the Kmer/Mer API is applied and compared with the same operation on the plain K-letter Vec<u8>. K<=8: every one of the 4^K values is enumerated with all positions, bases and (pos,run) pairs (exhaustive jobs). K>8: generated values biased to homopolymers, single-lane differences, alternating, palindromic and A/T-only shapes. Non-trivial = value is not all-A; distinct = distinct (type, case) hashes.";
+pub const RULE: &str = "case = (k-mer type, k-mer value s, second value t, position, run length, base, packed word with garbage low bits, extension byte, longer sequence); every operation of the Kmer/Mer/MerImmut API is applied and compared with the same operation on the plain K-letter Vec<u8>. K<=8: every one of the 4^K values is enumerated with all positions, bases and (pos,run) pairs (exhaustive jobs). K>8: generated values biased to homopolymers, single-lane differences, alternating, palindromic and A/T-only shapes. Non-trivial = value is not all-A; distinct = distinct (type, case) hashes.";
 pub const TECHNIQUE: &str = "exhaustive enumeration (K<=8) + seeded proptest (K>8) against a Vec<u8> string model";
 
 pub fn digits(mut v: u64, k: usize) -> Seq {
